@@ -539,34 +539,34 @@ Definition sig_fuel (sc : scope) (t : ity) : nat :=
 Definition tuple_sig (f : nat) (sc : scope) (ps : list (string * ity)) : option string :=
   isig (S f) sc (ITuple (map snd ps)).
 
+Fixpoint meta_methods (sc : scope) (l : list (N * (string * ity * list (string * ity)))) : option (list mmethod) :=
+  match l with
+  | [] => Some []
+  | (id, (n, ret, pl)) :: r =>
+      let f := sig_fuel sc (ITuple (ret :: map snd pl)) in
+      match isig f sc ret, tuple_sig f sc pl, iidl f sc ret, meta_methods sc r with
+      | Some rs, Some p, Some _, Some rest =>
+          Some ({| mm_uid := id; mm_name := n; mm_params := p; mm_ret := rs;
+                   mm_pnames := Some (map fst pl) |} :: rest)
+      | _, _, _, _ => None
+      end
+  end.
+Fixpoint meta_signals (sc : scope) (l : list (N * (string * list (string * ity)))) : option (list msignal) :=
+  match l with
+  | [] => Some []
+  | (id, (n, pl)) :: r =>
+      let f := sig_fuel sc (ITuple (map snd pl)) in
+      match tuple_sig f sc pl, meta_signals sc r with
+      | Some p, Some rest => Some ({| ms_uid := id; ms_name := n; ms_sig := p |} :: rest)
+      | _, _ => None
+      end
+  end.
+
 Definition meta_of_itf (sc : scope) (v : ival) : option (option mobject) :=
   (* None = stack overflow; Some None = not an interface *)
   match v with
   | VItf name ms ss ps =>
-      let fuel_of t := sig_fuel sc t in
-      let fix methods l :=
-          match l with
-          | [] => Some []
-          | (id, (n, ret, pl)) :: r =>
-              let f := fuel_of (ITuple (ret :: map snd pl)) in
-              match isig f sc ret, tuple_sig f sc pl, iidl f sc ret, methods r with
-              | Some rs, Some p, Some _, Some rest =>
-                  Some ({| mm_uid := id; mm_name := n; mm_params := p; mm_ret := rs;
-                           mm_pnames := Some (map fst pl) |} :: rest)
-              | _, _, _, _ => None
-              end
-          end in
-      let fix signals l :=
-          match l with
-          | [] => Some []
-          | (id, (n, pl)) :: r =>
-              let f := fuel_of (ITuple (map snd pl)) in
-              match tuple_sig f sc pl, signals r with
-              | Some p, Some rest => Some ({| ms_uid := id; ms_name := n; ms_sig := p |} :: rest)
-              | _, _ => None
-              end
-          end in
-      match methods ms, signals ss, signals ps with
+      match meta_methods sc ms, meta_signals sc ss, meta_signals sc ps with
       | Some a, Some b, Some c => Some (Some {| mo_name := name; mo_methods := a; mo_signals := b; mo_props := c |})
       | _, _, _ => None
       end
